@@ -104,6 +104,7 @@ structure HEntry where
   ns : List NsRec
   target : Option String
   nx : Bool
+  claimed : Bool := false      -- CacheEntry.prefetch: a refresh has been claimed for this entry
 deriving Repr
 
 structure Spec where
@@ -159,6 +160,8 @@ structure HState where
   cuts : List (String × Int) := []
   -- the RFC 8198 proof index of zone pz.test.: the one SOA entry and one NSEC entry per owner;
   -- (expires, generation, record item, signature item)
+  pfPct : Nat := 0                       -- CacheConfig.Prefetch
+  pfq : List (String × Nat) := []         -- queued refreshes: (name, id of the entry that claimed it)
   proofSoa : Option (Int × Nat × Item × Item) := none
   proofNsec : List (String × (Int × Nat × Item × Item)) := []
 
@@ -303,6 +306,12 @@ def serve (cfg : Cfg) (script : List (String × Spec)) (now : Int) :
       match he.e.toMsgTTL now with
       | none => (st, none, m0)
       | some shown =>
+        -- handleCacheHit: a shared entry inside the prefetch window claims one refresh (CAS on
+        -- entry.prefetch) and queues it with the entry it set out to replace
+        let isShared := match getSlot st (name, false) with | some x => x.id == he.id | none => false
+        let st := if isShared && he.e.shouldPrefetch st.pfPct he.claimed now then
+            { setSlot st (name, false) { he with claimed := true } with pfq := st.pfq ++ [(name, he.id)] }
+          else st
         -- boundRequestToEntryLifetime
         let mcut := boundCut m0 (some he.e.hardUntil)
         let r0 : Reply := { ans := if he.hasAns then [name] else [], ansTTL := if he.hasAns then [(name, shown)] else [],
@@ -423,6 +432,38 @@ structure State where
 
 def nowOf (h : HState) : Int := h.V * S + h.j * tau
 
+/-- `PrefetchQueue.processPrefetch` for the claim `(name, capId)`: resolve through the
+cache-less sub-pipeline, `Store.ReplaceIfCurrent` (CAS on the stored entry's identity),
+release the claim on the entry that made it. -/
+def completeRefresh (h : HState) (script : List (String × Spec)) (now : Int) (name : String) (capId : Nat) : HState :=
+  let release (h : HState) : HState :=
+    match getSlot h (name, false) with
+    | some cur => if cur.id == capId then setSlot h (name, false) { cur with claimed := false } else h
+    | none => h
+  match script.lookup name with
+  | none => release h
+  | some sp =>
+    let id := h.nextId
+    let h := { h with nextId := id + 1 }
+    let hasAns := !sp.ans.isEmpty
+    let nsRecs := itemsToNs id name sp.ns
+    let expired := sp.ans.any itemExpired || sp.ns.any itemExpired
+    let nx := sp.kind == 'x'
+    let rt : RespType := if nx then .nxdomain else if hasAns then .success
+      else if nsRecs.any nsIsSOA then .norecords else .success
+    if !nx && hasAns && expired then release h else
+    match getSlot h (name, false) with
+    | some cur =>
+      if cur.id == capId then
+        let msg : Msg := { answer := sp.ans.map (Item.toRR now), ns := nsRecs.map (NsRec.toRR now) }
+        let ttl := replaceTTL (genCfg h.ecsCap) msg rt now
+        let he : HEntry := { id := id, e := { stored := now, ttl := ttl, cut := sp.lease.map fun l => now + l * S },
+                             hasAns := hasAns, ns := nsRecs.map (fun n => { n with fresh := false }),
+                             target := if sp.kind == 'c' then some sp.tgt else none, nx := nx }
+        setSlot h (name, false) he
+      else h
+    | none => h
+
 def stepHist (st : State) (w : List String) : State × String :=
   let h := st.h
   match w with
@@ -430,6 +471,10 @@ def stepHist (st : State) (w : List String) : State × String :=
     match cap.toInt? with
     | some c => ({ st with h := { ecsCap := c * S } }, "ok")
     | none => (st, "bad-op")
+  | ["c", "new", cap, _, pf] =>
+    match cap.toInt?, pf.toNat? with
+    | some c, some pf => ({ st with h := { ecsCap := c * S, pfPct := pf } }, "ok")
+    | _, _ => (st, "bad-op")
   | ["c", "adv", d] =>
     match d.toInt? with
     | some d => ({ st with h := { h with V := h.V + d } }, "ok")
@@ -557,6 +602,16 @@ def stepHist (st : State) (w : List String) : State × String :=
         let ne := match h'.proofNsec.lookup k with | some (e, _, _, _) => e | none => now
         ({ st with h := h' }, "t soa=" ++ toString (ceilDiv (se - now)) ++ " nsec=" ++ toString (ceilDiv (ne - now)))
     | _, _ => (st, "bad-op")
+  | ["c", "pfrun", up] =>
+    match parseUp up with
+    | some script =>
+      let h := { h with j := h.j + 1 }
+      let now := nowOf h
+      let id0 := h.nextId
+      let q := h.pfq
+      let h := q.foldl (fun h (c : String × Nat) => completeRefresh h script now c.1 c.2) { h with pfq := [] }
+      ({ st with h := h }, "pf n=" ++ toString q.length ++ listing h id0 now)
+    | none => (st, "bad-op")
   | ["c", "cutrec", k, items, lease] =>
     match parseItems items, parseRel lease with
     | some [s, g1, p, g2], some lease =>
